@@ -5,8 +5,12 @@ runs and the correspondence checks compare with furax (`Index.indexPositions` / 
 `Axes.moveaxis`, `Diagonal.apply`, `SV.rot` / `rotT` / `hwp` / `pol`), lifted leaf by leaf.
 
 * `den E o`   — what `o.mv` computes;   `denT E o` — what `o.T.mv` computes (the adjoint map);
-* leaf classes no reduction rule looks into (dense einsum blocks, Toeplitz, observation matrices, opaque
-  operators) are interpreted by an environment `E` of arbitrary homogeneous maps, keyed by the Python identity;
+* `SymmetricBandToeplitzOperator` leaves with an un-batched band (`p.vals.shape = [K]`) are interpreted by the
+  verified kernel `Toeplitz.toep` (FuraxModel/Toeplitz.lean, property C09), row by row along the last axis of
+  every leaf (`toepLeaf`);
+* leaf classes no reduction rule looks into (dense einsum blocks, Toeplitz with BATCHED bands, observation
+  matrices, opaque operators) are interpreted by an environment `E` of arbitrary homogeneous maps, keyed by the
+  Python identity;
 * `InverseOperator(o)` denotes the inverse of `den o` when one exists (exact solver, assumption A4), the zero map
   otherwise; `DiagonalInverseOperator(D)` is the diagonal operator of `where(d != 0, 1/d, 0)`.
 
@@ -19,6 +23,7 @@ import FuraxModel.Index
 import FuraxModel.Axes
 import FuraxModel.Diagonal
 import FuraxModel.Stokes
+import FuraxModel.Toeplitz
 import Mathlib.Analysis.SpecialFunctions.Trigonometric.Basic
 namespace Furax
 namespace ListSem
@@ -109,6 +114,29 @@ noncomputable def polTMap (k : StokesKind) (n : Nat) (y : V) : V :=
   ((List.range ncomp).map fun c => (List.range n).map fun t =>
     (SV.present k (⟨(1 / 2 : ℝ) * y.getD t 0, (1 / 2 : ℝ) * y.getD t 0, 0, 0⟩ : SV ℝ)).getD c 0).flatten
 
+/-! ### the symmetric band Toeplitz kernel: one leaf, row by row along its last axis -/
+
+/-- the number of bands `K` of an UN-BATCHED band array (`band_values.shape = [K]`); `none` for any other shape
+(batched bands `[..., K]` are left to the environment) -/
+def toepK (vals : Tensor Rat) : Option Nat :=
+  match vals.shape with
+  | [K] => some K
+  | _ => none
+
+/-- the band values as an index function: `band k = vals.data[k]`, cast to `ℝ` -/
+def toepBand (vals : Tensor Rat) (k : Nat) : ℝ := ((vals.data.getD k 0 : Rat) : ℝ)
+
+/-- row `b` of a flat row-major vector whose last axis has length `l`, as an index function -/
+def rowOf (l : Nat) (x : V) (b : Nat) (j : Nat) : ℝ := x.getD (b * l + j) 0
+
+/-- `SymmetricBandToeplitzOperator.mv` on one leaf of shape `s ++ [l]`: the output at flat position `b*l + i`
+is `toep (K−1) l band (row b of the input) i` — the banded product `Σ_j [|i−j| < K] band|i−j| · x[b, j]`
+(`Toeplitz.toep`, the specification all four evaluation methods are proved to compute, Props/C09.lean) -/
+noncomputable def toepLeaf (K : Nat) (vals : Tensor Rat) (li _lo : LeafS) (x : V) : V :=
+  let l := li.shape.getLastD 1
+  (List.range li.size).map fun q =>
+    Toeplitz.toep (K - 1) l (toepBand vals) (rowOf l x (q / l)) (q % l)
+
 /-! ### the environment of uninterpreted leaves -/
 
 /-- maps for the leaf classes no rule inspects, and their transposes; homogeneous -/
@@ -143,7 +171,11 @@ noncomputable def leafDen (E : Env) (u : Nat) (c : LeafCls) (p : Params) (x : V)
       match kindOf s.leaves.length with
       | some k => polMap k (s.leaves.headD default).size xi
       | none => xi
-    | .dense | .toeplitz | .obsMatrix | .opaque => E.f u xi
+    | .toeplitz =>
+      match toepK p.vals with
+      | some K => perLeaf (toepLeaf K p.vals) s.leaves t.leaves xi
+      | none => E.f u xi
+    | .dense | .obsMatrix | .opaque => E.f u xi
 
 /-- `mv` of the transpose of a leaf operator (input on the leaf's output structure) -/
 noncomputable def leafDenT (E : Env) (u : Nat) (c : LeafCls) (p : Params) (y : V) : V :=
@@ -170,7 +202,11 @@ noncomputable def leafDenT (E : Env) (u : Nat) (c : LeafCls) (p : Params) (y : V
       match kindOf s.leaves.length with
       | some k => polTMap k (s.leaves.headD default).size yi
       | none => yi
-    | .dense | .toeplitz | .obsMatrix | .opaque => E.fT u yi
+    | .toeplitz =>          -- `@symmetric`: the transpose is the operator itself
+      match toepK p.vals with
+      | some K => perLeaf (toepLeaf K p.vals) s.leaves t.leaves yi
+      | none => E.fT u yi
+    | .dense | .obsMatrix | .opaque => E.fT u yi
 
 /-! ### lazy inverses -/
 
